@@ -87,6 +87,15 @@ def make_cases(rng, tier):
                     sq = inj_seq("q", et, [e0, e0, e0], byptr=byptr, array=arr)
                     add(block([assign(("map", mapvar("q", ("int", 1))), "=", ("math", mvar("src")))], ("expr", emath(matom(amap(mapvar("q", ("int", 1))))))), [sq, inj_val("src", same)])
                     add(block([assign(("map", mapvar("q", ("var", "k"))), "=", ("math", mvar("src")))]), [sq, inj_val("src", v), inj_val("k", tv_int("i", 2))])
+    # a NEGATIVE integer is an ordinary key of an int-keyed map: literal and variable keys, maps injected by value and by
+    # pointer (index checks belong to slices and arrays only)
+    for byp in (False, True):
+        for kt in ("i64", "i32", "i8"):
+            mk = lambda: inj_map("m", kt, "i64", [(tv_int(kt, -1), tv_int("i64", 5)), (tv_int(kt, 3), tv_int("i64", 6))], byptr=byp)
+            add(block([assign(("map", mapvar("m", ("int", -1))), "=", ("math", mint(70)))], ("expr", emath(matom(amap(mapvar("m", ("int", -1))))))), [mk()])
+            add(block([assign(("map", mapvar("m", ("int", -40))), "=", ("math", mint(71)))], ("expr", emath(matom(amap(mapvar("m", ("int", -40))))))), [mk()])
+            add(block([assign(("var", "kx"), "=", ("math", mint(-40))), assign(("map", mapvar("m", ("var", "kx"))), "+=", ("math", mint(72)))],
+                      ("expr", emath(matom(amap(mapvar("m", ("int", -40))))))), [mk()])
     # key coercion, out-of-range and wrong-kind indexes
     for kt, kv in [("i8", tv_int("i64", 3)), ("i32", tv_int("i8", 3)), ("i64", tv_int("i8", 3)), ("u8", tv_int("u64", 3)), ("u8", tv_int("i64", 3)), ("s", tv_int("i64", 3))]:
         kk = tv_str("3") if kt == "s" else dict(tv_int(kt, 3))
